@@ -33,6 +33,11 @@ def core_program(rng, depth=3, allow_break=True, allow_print=True):
             return rng.choice("0123") + "(" + var + seq(d - 1) + brk() + seq(d - 1, 0, 1) + ")"
         if k == 2:   # while with a variable counter; a break may appear, a continue may not (it never re-tests)
             b = seq(d - 1) + ("X" if allow_break and rng.random() < 0.3 else "") + seq(d - 1, 0, 1)
+            if allow_break and rng.random() < 0.3:
+                # a continue that runs for exactly one value of the counter: after it the OLD condition value is tested again
+                # (the condition code is not re-run), so the next iteration starts without a fresh test
+                b = seq(d - 1, 0, 2) + "←c" + rng.choice("12") + "=[" + seq(d - 1, 0, 1) + "x]" + seq(d - 1, 0, 2)
+                return rng.choice("234") + "→c{←c" + rng.choice(["", ":…_", "d"]) + "|←c1-→c" + b + "}"
             return rng.choice("123") + "→c{←c|←c1-→c" + b + "}"
         if k == 3:   # lambda called at once
             ar = rng.choice(["", "1|", "2|", "0|"])
